@@ -3,9 +3,9 @@ open Common
    (the leading token of seq/rule/dirty is the former debug_build flag: still read, ignored since the digit
    accumulators saturate identically in debug and release builds)
    seq  : _  n (pattern:str u:0/1)*n     -> per item: 0 | 1 <msgclass> | 2 <site> | 3 | 4 (not reached after a panic)
-   rule : _  n (pattern:str flags:str)*n -> per item: 0 no report | 1 report | 2 panic | 3 fuel | 4 not reached
+   rule : _  n (pattern:str flags:opt str)*n   (flags absent = not a string literal) -> per item: 0 no report | 1 report | 2 panic | 3 fuel | 4 not reached
    flags: flags:str                      -> 0 ok | 1 <msgclass>
-   dirty: _  pattern:str flags:str       -> like rule for one regex, starting from RuleDecision.dirty_vst *)
+   dirty: _  pattern:str flags:opt str   -> like rule for one regex, starting from RuleDecision.dirty_vst *)
 let out_decision (d : RuleDecision.decision option) =
   match d with
   | None -> out_int 4
@@ -28,7 +28,7 @@ let run_seq () =
 
 let run_rule () =
   let _ = read_bool () in
-  let items = read_list (fun () -> let p = read_str () in let f = read_str () in (p, f)) in
+  let items = read_list (fun () -> let p = read_str () in let f = read_opt read_str in (p, f)) in
   L.iter out_decision (RuleDecision.check_file Validator.init_vst items)
 
 let run_flags () =
@@ -40,7 +40,7 @@ let run_flags () =
 let run_dirty () =
   let _ = read_bool () in
   let p = read_str () in
-  let f = read_str () in
+  let f = read_opt read_str in
   let (d, _) = RuleDecision.check_regex RuleDecision.dirty_vst p f in
   out_decision (Some d)
 
